@@ -358,3 +358,27 @@ def check_failed_steps_retried(ctx, consequence: str):
     ws = ctx.prog.func("workflow.Workflow.steps")
     src = re.sub(r"\s+", " ", ast.unparse(ws.node))
     ctx.check("if not include_detached: sql += ' AND NOT detached'" in src, ws.fq, "Workflow.steps filters detached steps unless asked not to", "include_detached no longer removes the filter (or the default includes detached steps)", "conditional filter")
+
+
+def check_reattach_wakes_deferred(ctx, consequence: str):
+    """`deferred` is parked from has_unavailable_dynamic_input(), whose predicate reads file.state and
+    node.detached.  A change of file.state reaches mark_step_pending (which clears the flag); a node that is
+    reattached by a full recycle changes no file state, so a trigger on node.detached has to clear the flag of the
+    consumers itself."""
+    import re
+
+    hu = ctx.prog.func("step.Step.has_unavailable_dynamic_input")
+    reads_detached = any(re.search(r"\bdetached\b", st.text) for st in ctx.sql.stmts_in(hu.fq))
+    trigs = [t for t in ctx.cat.triggers.values() if t.table == "node" and t.op == "UPDATE" and "detached" in t.of_cols
+             and re.search(r"UPDATE step SET deferred = (FALSE|0)", re.sub(r"\s+", " ", t.body), re.I)]
+    if not reads_detached:
+        ctx.ok(hu.fq, "the parking predicate does not look at detached", "no wake-up on reattach needed")
+        return
+    ok = False
+    for t in trigs:
+        body = re.sub(r"\s+", " ", t.body)
+        consumers = re.search(r"SELECT sink FROM dependency WHERE source = NEW \. i", body) is not None
+        tt = ctx.cat.truth_table(t.when or "1", {"OLD.detached": [0, 1], "NEW.detached": [0, 1]})
+        covers = bool(tt.get((1, 0)))
+        ok = ok or (consumers and covers)
+    ctx.check(ok, "step.STEP_SCHEMA", "reattaching a node clears `deferred` of its consumers", consequence, "trigger on node.detached 1 -> 0", where="trigger " + (", ".join(t.name for t in trigs) or "(none)"))
